@@ -284,7 +284,7 @@ fn run_case(plan: &Plan, h: &History, case: usize, origin: &str, sh: &Shared) {
     let mut subjects: Vec<(Kind, Option<std::collections::HashSet<Uuid>>)> = plan.kinds.iter().map(|k| (*k, None)).collect();
     if plan.allowlisted_variant {
         let ids: std::collections::HashSet<Uuid> = (0..h.n_clients).map(|c| crate::e1::client_uuid(h.seed, c)).chain([Rng::new(h.seed).fork(0xA110).uuid()]).collect();
-        subjects.push((Kind { backend: Backend::Sqlite, entry: Entry::Http, reopen_pct: 40, socket: false, peers: false }, Some(ids)));
+        subjects.push((Kind { backend: Backend::Sqlite, entry: Entry::Http, reopen_pct: 40, socket: false, peers: false, pinned_first: false }, Some(ids)));
     }
     if !plan.socket_kinds.is_empty() && case % plan.socket_every.max(1) == 0 {
         for k in &plan.socket_kinds {
@@ -295,7 +295,7 @@ fn run_case(plan: &Plan, h: &History, case: usize, origin: &str, sh: &Shared) {
     if plan.binary_every > 0 && case % plan.binary_every == 0 && crate::net::server_bin().is_some() {
         let ids: std::collections::HashSet<Uuid> = (0..h.n_clients).map(|c| crate::e1::client_uuid(h.seed, c)).collect();
         binary_idx = Some(subjects.len());
-        subjects.push((Kind { backend: Backend::Sqlite, entry: Entry::Http, reopen_pct: 8, socket: true, peers: (case / plan.binary_every) % 2 == 1 }, Some(ids)));
+        subjects.push((Kind { backend: Backend::Sqlite, entry: Entry::Http, reopen_pct: 8, socket: true, peers: (case / plan.binary_every) % 2 == 1, pinned_first: false }, Some(ids)));
     }
     for (si, (kind, allow)) in subjects.iter().enumerate() {
         let made = if Some(si) == binary_idx { Subject::with_binary_peers(config, allow.clone(), 8, kind.peers) } else { Subject::with(*kind, config, allow.clone(), None) };
@@ -573,10 +573,12 @@ pub fn finalize(plan: &Plan, seed: u64, out: ShardOut, is_replay: bool) -> Check
 
 pub fn plan_for(id: &str, tier: &str) -> Option<Plan> {
     let thorough = tier == "thorough";
-    let sqlite_reopen = Kind { backend: Backend::Sqlite, entry: Entry::Lib, reopen_pct: 30, socket: false, peers: false };
+    let sqlite_reopen = Kind { backend: Backend::Sqlite, entry: Entry::Lib, reopen_pct: 30, socket: false, peers: false, pinned_first: false };
     // (one SQLite subject has two server instances, each with its own storage object, on one directory)
-    let sqlite_peers = Kind { backend: Backend::Sqlite, entry: Entry::Http, reopen_pct: 0, socket: false, peers: true };
-    let all = vec![Kind::MEM_LIB, Kind::SQL_LIB, sqlite_reopen, Kind::MEM_HTTP, sqlite_peers];
+    let sqlite_peers = Kind { backend: Backend::Sqlite, entry: Entry::Http, reopen_pct: 0, socket: false, peers: true, pinned_first: false };
+    // (and one whose directory is first served by the pinned release and taken over mid-history)
+    let sqlite_upgraded = Kind { backend: Backend::Sqlite, entry: Entry::Lib, reopen_pct: 10, socket: false, peers: false, pinned_first: true };
+    let all = vec![Kind::MEM_LIB, Kind::SQL_LIB, sqlite_reopen, Kind::MEM_HTTP, sqlite_peers, sqlite_upgraded];
     let base_assumptions = vec![
         "ids are bound when first observed; freshness is judged against ids seen in this run only".to_string(),
         "state is compared at quiescent points through the storage's own transactions and raw SQL".to_string(),
@@ -687,11 +689,11 @@ pub fn plan_for(id: &str, tier: &str) -> Option<Plan> {
             p.kinds = vec![
                 Kind::MEM_LIB,
                 Kind::SQL_LIB,
-                Kind { backend: Backend::Sqlite, entry: Entry::Lib, reopen_pct: 10, socket: false, peers: false },
-                Kind { backend: Backend::Sqlite, entry: Entry::Lib, reopen_pct: 50, socket: false, peers: true },
-                Kind { backend: Backend::Sqlite, entry: Entry::Lib, reopen_pct: 100, socket: false, peers: false },
+                Kind { backend: Backend::Sqlite, entry: Entry::Lib, reopen_pct: 10, socket: false, peers: false, pinned_first: false },
+                Kind { backend: Backend::Sqlite, entry: Entry::Lib, reopen_pct: 50, socket: false, peers: true, pinned_first: false },
+                Kind { backend: Backend::Sqlite, entry: Entry::Lib, reopen_pct: 100, socket: false, peers: false, pinned_first: true },
                 Kind::MEM_HTTP,
-                Kind { backend: Backend::Sqlite, entry: Entry::Http, reopen_pct: 40, socket: false, peers: false },
+                Kind { backend: Backend::Sqlite, entry: Entry::Http, reopen_pct: 40, socket: false, peers: false, pinned_first: false },
             ];
             p.n_random = n(260, 6000);
             p.required = vec!["AddSnapshot|", "GetSnapshot|", "|conflict"];
@@ -702,7 +704,7 @@ pub fn plan_for(id: &str, tier: &str) -> Option<Plan> {
             p.mon.facts = true;
             p.compare = Compare::Twin;
             p.kinds = vec![Kind::MEM_LIB, Kind::MEM_HTTP, Kind::SQL_LIB, Kind::SQL_HTTP];
-            p.socket_kinds = vec![Kind { backend: Backend::Mem, entry: Entry::Http, reopen_pct: 0, socket: true, peers: false }, Kind { backend: Backend::Sqlite, entry: Entry::Http, reopen_pct: 0, socket: true, peers: false }];
+            p.socket_kinds = vec![Kind { backend: Backend::Mem, entry: Entry::Http, reopen_pct: 0, socket: true, peers: false, pinned_first: false }, Kind { backend: Backend::Sqlite, entry: Entry::Http, reopen_pct: 0, socket: true, peers: false, pinned_first: false }];
             p.socket_every = if thorough { 4 } else { 16 };
             p.n_random = n(800, 8000);
             p.required = vec!["row:AddVersion:accepted-urgency-None", "row:AddVersion:accepted-urgency-Low", "row:AddVersion:accepted-urgency-High", "row:AddVersion:conflict", "row:GetChildVersion:found", "row:GetChildVersion:not-found", "row:GetChildVersion:gone", "row:AddSnapshot:snap-ok", "row:AddSnapshot:no-such-client", "row:GetSnapshot:snapshot", "row:GetSnapshot:no-snapshot"];
@@ -739,7 +741,7 @@ pub fn plan_for(id: &str, tier: &str) -> Option<Plan> {
 /// C01, count thresholds: one very long chain on SQLite (beyond 10 000 versions; beyond 65 536 in
 /// thorough), re-opened, walked end to end, extended, re-opened and walked again.
 pub fn bulk_chain(n: usize, seed: u64, cov: &mut Cov) -> Option<Found> {
-    let mut subj = Subject::new(Kind { backend: Backend::Sqlite, entry: Entry::Lib, reopen_pct: 0, socket: false, peers: false }, Config::default()).ok()?;
+    let mut subj = Subject::new(Kind { backend: Backend::Sqlite, entry: Entry::Lib, reopen_pct: 0, socket: false, peers: false, pinned_first: false }, Config::default()).ok()?;
     let client = Rng::new(seed).fork(0xB01C).uuid();
     let other = Rng::new(seed).fork(0xB01D).uuid();
     let mut chain: Vec<Uuid> = Vec::with_capacity(n + 8);
